@@ -321,6 +321,13 @@ func (f *FuncCtx) countCall(text string, args []Val, e *ast.CallExpr, env *Env) 
 		return
 	}
 	fr := f.fr
+	// contract clauses are evaluated at the program point of the outermost call site (inlined
+	// closures / helpers are expanded there), with the names visible at that point
+	sitePos := e.Pos()
+	for x := f.fr; x != nil && x.depth > 0; x = x.parent {
+		sitePos = x.callPos
+		fr = x.parent
+	}
 	// callreq obligations of the enclosing (top-level) contract
 	if f.C != nil {
 		if reqs, ok := f.C.CallReq[text]; ok {
@@ -330,9 +337,20 @@ func (f *FuncCtx) countCall(text string, args []Val, e *ast.CallExpr, env *Env) 
 				bound[fmt.Sprintf("a%d", i+1)] = a
 			}
 			for k, cl := range reqs {
-				sc := &specCtx{bound: []map[string]Val{bound}, old: f.entry, pos: e.Pos(), scope: fr.scope, pcs: f.PC}
+				sc := &specCtx{bound: []map[string]Val{bound}, old: f.entry, pos: sitePos, scope: fr.scope, pcs: f.PC}
 				g := f.evalClause(cl, env, sc)
 				f.oblige(fmt.Sprintf("callreq.%s#%d.%d", text, f.callOrd[text], k+1), "callreq", env, g, cl.Text, fmt.Sprintf("%s:%d", shortPath(cl.File), cl.Line))
+			}
+		}
+	}
+	if f.C != nil {
+		if gcs, ok := f.C.GhostCall[text]; ok {
+			bound := map[string]Val{}
+			for i, a := range args {
+				bound[fmt.Sprintf("a%d", i+1)] = a
+			}
+			for _, cl := range gcs {
+				f.ghostAssign(cl, bound, e, env)
 			}
 		}
 	}
@@ -630,7 +648,7 @@ func (f *FuncCtx) callClosure(c *Closure, e *ast.CallExpr, env *Env) []Val {
 		f.fail("closure inlining too deep at %s", text)
 		return f.havocResults(e, env)
 	}
-	fr := &frame{c: nil, pc: f.fr.pc, pkg: f.fr.pkg, sig: sig, scope: f.fr.scope, name: text, depth: f.fr.depth + 1, parent: f.fr}
+	fr := &frame{c: nil, pc: f.fr.pc, pkg: f.fr.pkg, sig: sig, scope: f.fr.scope, name: text, depth: f.fr.depth + 1, parent: f.fr, callPos: e.Pos()}
 	// loops inside closures use the enclosing function's loop numbering: count loops by position
 	return f.inlineBody(fr, lit.Type, nil, lit.Body, sig, nil, args, env)
 }
@@ -643,7 +661,7 @@ func (f *FuncCtx) inlineDecl(fn *types.Func, decl *ast.FuncDecl, c *FuncContract
 	}
 	f.note("inlined: " + fn.Name())
 	osig := fn.Type().(*types.Signature)
-	fr := &frame{c: c, pc: pc, pkg: f.Pkg, sig: osig, scope: decl.Body, name: fn.Name(), depth: f.fr.depth + 1, parent: f.fr}
+	fr := &frame{c: c, pc: pc, pkg: f.Pkg, sig: osig, scope: decl.Body, name: fn.Name(), depth: f.fr.depth + 1, parent: f.fr, callPos: e.Pos()}
 	return f.inlineBody(fr, decl.Type, decl.Recv, decl.Body, osig, recv, args, env)
 }
 
@@ -1065,4 +1083,54 @@ func (f *FuncCtx) lockAcquire(recvExpr ast.Expr, env *Env) {
 		}
 		f.entry = env.clone()
 	}
+}
+
+
+// ghostAssign executes 'g = e' or 'g[k] = e' on a ghost variable.
+func (f *FuncCtx) ghostAssign(cl Clause, bound map[string]Val, at ast.Node, env *Env) {
+	i := indexTop(cl.Text, "=")
+	for i >= 0 && i+1 < len(cl.Text) && (cl.Text[i+1] == '=' || (i > 0 && strings.ContainsRune("!<>=", rune(cl.Text[i-1])))) {
+		j := indexTop(cl.Text[i+2:], "=")
+		if j < 0 {
+			i = -1
+			break
+		}
+		i = i + 2 + j
+	}
+	if i < 0 {
+		f.fail("ghostcall %q: expected 'lhs = rhs'", cl.Text)
+		return
+	}
+	lhsT, rhsT := strings.TrimSpace(cl.Text[:i]), strings.TrimSpace(cl.Text[i+1:])
+	gpos, gfr := at.Pos(), f.fr
+	for x := f.fr; x != nil && x.depth > 0; x = x.parent {
+		gpos = x.callPos
+		gfr = x.parent
+	}
+	sc := &specCtx{bound: []map[string]Val{bound}, old: f.entry, pos: gpos, scope: gfr.scope, pcs: f.PC}
+	rhs := f.evalClauseVal(Clause{Text: rhsT, Line: cl.Line, File: cl.File}, env, sc)
+	name, keyT := lhsT, ""
+	if k := strings.Index(lhsT, "["); k > 0 && strings.HasSuffix(lhsT, "]") {
+		name, keyT = strings.TrimSpace(lhsT[:k]), lhsT[k+1:len(lhsT)-1]
+	}
+	g, ok := env.names["$g:"+name]
+	if !ok {
+		f.fail("ghostcall: unknown ghost variable %s", name)
+		return
+	}
+	if keyT == "" {
+		env.names["$g:"+name] = f.name(f.coerce(rhs, g.Typ), name)
+		return
+	}
+	mt, ok := g.Typ.Underlying().(*types.Map)
+	if !ok {
+		f.fail("ghostcall: %s is not a map", name)
+		return
+	}
+	k := f.coerce(f.evalClauseVal(Clause{Text: keyT, Line: cl.Line, File: cl.File}, env, sc), mt.Key())
+	saved := f.spec
+	f.spec = nil
+	nv := Val{T: f.mapStore(f.name(g, name), k, f.coerce(rhs, mt.Elem())), Typ: g.Typ}
+	env.names["$g:"+name] = f.name(nv, name)
+	f.spec = saved
 }
